@@ -1,16 +1,24 @@
 """C09: raster interlace permutation (mfgr.c)"""
 from .core import ob, prop
 
-GR = dict(unit="mfgr_u.c", file="hdf/src/mfgr.c", cex_unwind=56, objbits=10,
+GR = dict(unit="mfgr_u.c", file="hdf/src/mfgr.c", cex_unwind=56,
           trusted=["DFKNTsize (returns the component size chosen by the harness)"])
 BOUND = "xdim,ydim in 1..3, ncomp in 1..3, component size in {1,2}; all 9 (in,out) interlace pairs"
-ILS = {"P": "MFGR_INTERLACE_PIXEL", "L": "MFGR_INTERLACE_LINE", "C": "MFGR_INTERLACE_COMPONENT"}
-for a in "PLC":
-    for b in "PLC":
-        ob(f"GRIil_convert_{a}{b}_b", "C09", entry="h_GRIil_convert", enforce="GRIil_convert", mode="bounded",
-           bound=f"{ILS[a]} -> {ILS[b]}; xdim,ydim in 1..3, ncomp in 1..3, component size in {{1,2}}",
-           defines=[f"GR_INIL={ILS[a]}", f"GR_OUTIL={ILS[b]}"], unwind=4, **GR)
-ob("il_roundtrip_b", "C09", entry="h_il_roundtrip", mode="bounded", bound=BOUND, unwind=4, **GR)
+# symbolic extents and all 9 (in,out) pairs at once; ncomp and the component size are constants of the run
+for n in (1, 2, 3):
+    for cs in (1, 2):
+        ob(f"GRIil_convert_n{n}s{cs}_b", "C09", entry="h_GRIil_convert", enforce="GRIil_convert", mode="bounded",
+           bound=f"xdim,ydim in 1..3, ncomp = {n}, component size = {cs}, all 9 interlace pairs; buffers of capacity 54 "
+                 "(write frame exact by the assigns clause)",
+           defines=[f"GR_NCOMP={n}", f"GR_CS={cs}", "GR_CAPBUF"], unwind=4, **GR)
+        ob(f"il_roundtrip_n{n}s{cs}_b", "C09", entry="h_il_roundtrip", mode="bounded",
+           bound=f"xdim,ydim in 1..3, ncomp = {n}, component size = {cs}, all 9 interlace pairs; buffers of capacity 54",
+           defines=[f"GR_NCOMP={n}", f"GR_CS={cs}", "GR_CAPBUF"], unwind=4, **GR)
+# exact-size buffers (over-reads of the input are bounds violations), constant non-square extents
+for n, cs in ((3, 2), (2, 1)):
+    ob(f"GRIil_convert_exact_n{n}s{cs}_b", "C09", entry="h_GRIil_convert", enforce="GRIil_convert", mode="bounded",
+       bound=f"xdim = 3, ydim = 2, ncomp = {n}, component size = {cs}, all 9 interlace pairs; buffers of exactly xdim*ydim*ncomp*size bytes",
+       defines=[f"GR_NCOMP={n}", f"GR_CS={cs}", "GR_XDIM=3", "GR_YDIM=2"], unwind=4, **GR)
 
 prop("C09",
      residual="everything but the interlace permutation kernel: region/stride addressing and fill in GRwriteimage/GRreadimage, "
